@@ -302,9 +302,9 @@ impl<'a, 'p, 'ast> Lexer<'a, 'p, 'ast> {
                         state = State::IntDigits(false);
                     } else if !underscore && self.eat_byte(b'_') {
                         state = State::IntDigits(true);
-                    } else if self.eat_byte(b'.') {
+                    } else if !underscore && self.eat_byte(b'.') {
                         state = State::Dot;
-                    } else if self.eat_byte_if(|b| matches!(b, b'e' | b'E')) {
+                    } else if !underscore && self.eat_byte_if(|b| matches!(b, b'e' | b'E')) {
                         state = State::Exp;
                     } else if underscore {
                         let span = self.make_span(self.end_pos - 1, self.end_pos);
@@ -330,7 +330,7 @@ impl<'a, 'p, 'ast> Lexer<'a, 'p, 'ast> {
                         state = State::FracDigits(false);
                     } else if !underscore && self.eat_byte(b'_') {
                         state = State::FracDigits(true);
-                    } else if self.eat_byte_if(|b| matches!(b, b'e' | b'E')) {
+                    } else if !underscore && self.eat_byte_if(|b| matches!(b, b'e' | b'E')) {
                         state = State::Exp;
                     } else if underscore {
                         let span = self.make_span(self.end_pos - 1, self.end_pos);
